@@ -6,7 +6,10 @@
  *  L <W> <H> <samp> <mode> <arith> <prec> <rst> <pseed> | <M> <fancy> <dct> <quant> <ocs> | <cx> <cw> | <ops>
  *  F  ... same as L: same history on a decompress object that first decoded the stream with fancy upsampling (F5 probe)
  *  T <W> <H> <samp> <mode> <arith> <prec> <rst> <pseed> | <sfidx> <fastups> <fastdct> <pf> | <x> <y> <w> <h>
- *    samp = digits h0 v0 h1 v1 ...; mode 0 baseline, 1 progressive, 2 sequential non-interleaved
+ *    samp = digits h0 v0 h1 v1 ...; mode 0 baseline, 1 progressive, 2 sequential non-interleaved,
+ *           3/4/5 progressive file truncated after 1/2/3 scans, 6 DC-only script with final Al = 1,
+ *           7 DC + AC 1..5 (Al = 1) of component 0 only   (3..7: block smoothing is active in the decoder)
+ *    the decoder settings take an optional 6th number: buffered-image mode, early output pass on that scan
  *    ops  = R<n> (read until n rows were delivered or the bottom is reached) / S<n> (jpeg_skip_scanlines(n))
  */
 #include <stdio.h>
@@ -31,7 +34,7 @@ static unsigned long long rnd64(unsigned long long *s)
 }
 
 struct enc { int W, H, ncomp, hs[4], vs[4], mode, arith, prec, rst; unsigned long long pseed; unsigned char *jpg; unsigned long len; char key[256]; };
-struct dec { int M, fancy, dct, quant, ocs; };
+struct dec { int M, fancy, dct, quant, ocs, bscan; };
 struct full { int W, H, rowb, pxb; unsigned char *pix; char key[320]; };
 
 #define OUTMAX (1 << 18)
@@ -65,7 +68,7 @@ static int get_enc(char *hdr)
 static int get_full(struct dec *s)
 {
   char key[320];
-  snprintf(key, sizeof(key), "%s|%d %d %d %d %d", E.key, s->M, s->fancy, s->dct, s->quant, s->ocs);
+  snprintf(key, sizeof(key), "%s|%d %d %d %d %d %d", E.key, s->M, s->fancy, s->dct, s->quant, s->ocs, s->bscan);
   if (F.pix && strcmp(F.key, key) == 0) return 0;
   free(F.pix); F.pix = NULL; F.key[0] = 0;
   if ((E.prec == 8 ? fulldecode8(&E, s, &F) : fulldecode12(&E, s, &F)) != 0) return -1;
@@ -99,7 +102,7 @@ static void tj_case(char *a, char *b)
   rc = tj3SetCroppingRegion(t2, reg);
   o += sprintf(o, " set=%d", rc);
   if (rc == 0) {
-    int rw = w == 0 ? sw - x : w, rh = h == 0 ? sh - y : h, i, bad = 0, by = -1;
+    int rw = w == 0 ? sw - x : w, rh = h == 0 ? sh - y : h, i, bad = 0, by = -1, cmin = 1 << 30, cmax = -1;
     /* fancy upsampling: first/last column of a cropped region may differ (a region of <= 2 columns consists of them) */
     int ex0 = !fu && rw != sw && (x > 0 || rw <= 2), ex1 = !fu && rw != sw && (x + rw < sw || rw <= 2);
     if (x == 0 && y == 0 && w == 0 && h == 0) { rw = sw; rh = sh; }
@@ -110,11 +113,15 @@ static void tj_case(char *a, char *b)
     if (rc == 0) {
       for (i = 0; i < rh; i++) {
         int a0 = ex0 ? 1 : 0, b0 = rw - (ex1 ? 1 : 0);
-        if (b0 > a0 && memcmp(part + ((size_t)i * rw + a0) * ps, fullp + ((size_t)(y + i) * sw + x + a0) * ps, (size_t)(b0 - a0) * ps)) { bad++; if (by < 0) by = i; }
+        if (b0 > a0 && memcmp(part + ((size_t)i * rw + a0) * ps, fullp + ((size_t)(y + i) * sw + x + a0) * ps, (size_t)(b0 - a0) * ps)) {
+          int c; bad++; if (by < 0) by = i;
+          for (c = a0; c < b0; c++)
+            if (memcmp(part + ((size_t)i * rw + c) * ps, fullp + ((size_t)(y + i) * sw + x + c) * ps, ps)) { if (c < cmin) cmin = c; if (c > cmax) cmax = c; }
+        }
       }
       /* guard bytes after the region must be untouched */
       for (i = 0; i < 64; i++) if (part[(size_t)rw * rh * ps + i] != 0x5A) { bad++; by = -2; break; }
-      if (bad) o += sprintf(o, " | px bad row=%d n=%d", by, bad); else o += sprintf(o, " | px ok %d", rh);
+      if (bad) o += sprintf(o, " | px bad row=%d n=%d cols=%d-%d", by, bad, cmax < 0 ? -1 : cmin, cmax); else o += sprintf(o, " | px ok %d", rh);
     } else o += sprintf(o, " | px none (%s)", tj3GetErrorStr(t2));
   } else o += sprintf(o, " | px none");
   printf("%s\n", outbuf);
@@ -141,7 +148,9 @@ int main(void)
       tj_case(f[1], f[2]);
     } else {
       struct dec s; long cx, cw;
-      if (nf < 4 || sscanf(f[1], "%d %d %d %d %d", &s.M, &s.fancy, &s.dct, &s.quant, &s.ocs) != 5 || sscanf(f[2], "%ld %ld", &cx, &cw) != 2) { printf("bad-case\n"); continue; }
+      int nd; s.bscan = 0;
+      nd = sscanf(f[1], "%d %d %d %d %d %d", &s.M, &s.fancy, &s.dct, &s.quant, &s.ocs, &s.bscan);
+      if (nf < 4 || nd < 5 || sscanf(f[2], "%ld %ld", &cx, &cw) != 2) { printf("bad-case\n"); continue; }
       if (get_full(&s) != 0) { printf("full-err %d\n", last_err); continue; }
       if (E.prec == 8) history8(&E, &s, &F, cx, cw, f[3], kind == 'F'); else history12(&E, &s, &F, cx, cw, f[3], kind == 'F');
     }
